@@ -645,9 +645,110 @@ let judge_main file =
   done;
   Printf.printf "JSUMMARY steps=%d judged=%d unjudged=%d specdiffs=%d\n" !steps !judged !unjudged !diffs
 
+
+(* ======================= reader mode (C15) ========================================= *)
+let plus1_opts = ["MATCH"; "COUNT"; "TYPE"; "EX"; "EXAT"; "PX"; "PXAT"; "LIMIT"; "WEIGHTS"; "AGGREGATE"]
+
+let reader_main file =
+  let ic = open_in file in
+  let lines = ref [] in
+  (try while true do lines := input_line ic :: !lines done with End_of_file -> ());
+  let lines = Array.of_list (List.rev !lines) in
+  let n = Array.length lines in
+  let optnames = ref [] in
+  let cases = ref 0 and cmds_cmp = ref 0 and diffs = ref 0 and specdiffs = ref 0 and inl = ref 0 in
+  let i = ref 0 in
+  while !i < n do
+    let toks = split_ws lines.(!i) in
+    incr i;
+    (match toks with
+     | "OPTNAMES" :: l :: _ -> optnames := String.split_on_char ',' l
+     | "RD" :: id :: ncmds :: cuts :: _slen :: trailing :: _ ->
+         incr cases;
+         let ncmds = int_of_string ncmds in
+         let gen = ref [] in
+         for _ = 1 to ncmds do
+           (match split_ws lines.(!i) with
+            | "G" :: name :: na :: rest ->
+                let na = int_of_string na in
+                let rest = if na = 0 then [] else take na rest in
+                gen := (parse_tok name, List.map parse_tok rest) :: !gen
+            | _ -> ());
+           incr i
+         done;
+         let gen = List.rev !gen in
+         let stream = String.concat "" (List.map (fun (nm, args) ->
+                        sb (Reader.enc_cmd (bs nm) (List.map bs args))) gen) ^ parse_tok trailing in
+         let cuts = if cuts = "-" then [] else List.map (fun x -> nat_of_int (int_of_string x)) (String.split_on_char ',' cuts) in
+         (* implementation results *)
+         let impl = ref [] and ierr = ref "" and rq = ref "" and left = ref "" in
+         let fin = ref false in
+         while not !fin && !i < n do
+           (match split_ws lines.(!i) with
+            | "C" :: name :: na :: rest ->
+                let na = int_of_string na in
+                let rest' = if na = 0 then List.tl rest else rest in
+                let args = take na rest' in
+                let o = (match drop na rest' with "O" :: o :: _ -> o | _ -> "") in
+                impl := (name, args, o) :: !impl; incr i
+            | "ERR" :: e :: _ -> ierr := e; incr i
+            | "STALE" :: k :: _ ->
+                incr specdiffs;
+                Printf.printf "SPECDIFF %s command %s changed after later commands were parsed\n" id k; incr i
+            | "PANIC" :: e :: _ -> ierr := "PANIC:" ^ e; incr i
+            | "RQ" :: r :: _ -> rq := r; incr i
+            | "LEFT" :: l :: _ -> left := l; incr i; fin := true
+            | _ -> fin := true)
+         done;
+         let impl = List.rev !impl in
+         (* model run *)
+         let net0 = { Reader.stream = bs stream; Reader.cuts = cuts; Reader.reqs = [] } in
+         let rec go k s net acc =
+           if k = 0 then (List.rev acc, "", net)
+           else match Reader.coq_ReadCommand s net with
+             | Reader.CCmd (nm, args, s', net') -> go (k - 1) s' net' ((nm, args) :: acc)
+             | Reader.CErr Reader.EEOF -> (List.rev acc, "EOF", net)
+             | Reader.CErr Reader.EArrayLen -> (List.rev acc, "invalid_request,_expected_array_length", net)
+             | Reader.CErr Reader.EBulk -> (List.rev acc, "invalid_request,_expected_array", net)
+             | Reader.CInline -> (List.rev acc, "INLINE", net) in
+         let (mcmds, merr, _) = go (ncmds + 1) Reader.rd_init net0 [] in
+         if merr = "INLINE" then incr inl
+         else begin
+           let show (nm, args) = tok_out (sb nm) ^ " " ^ String.concat " " (List.map (fun a -> tok_out (sb a)) args) in
+           let mopts (args : Byte.byte list list) =
+             String.concat "," (List.map (fun on ->
+               let w = bs on in
+               if on = "NUMKEYS" then "0" else   (* readOptions has no case for it *)
+               Z.to_string (z_of_coqz (if List.mem on plus1_opts then Handlers.opt1 w args else Handlers.opt w args))) !optnames) in
+           let mstr = List.map (fun (nm, args) -> (tok_out (sb nm), List.map (fun a -> tok_out (sb a)) args, mopts args)) mcmds in
+           cmds_cmp := !cmds_cmp + List.length impl;
+           if mstr <> impl || merr <> !ierr then begin
+             incr diffs;
+             let rec fd a b k = match a, b with
+               | x :: ra, y :: rb -> if x = y then fd ra rb (k + 1) else k
+               | _, _ -> k in
+             Printf.printf "DIFF %s first-differing-command=%d model-err=%s impl-err=%s model-cmds=%d impl-cmds=%d\n" id
+               (fd mstr impl 0) merr !ierr (List.length mstr) (List.length impl)
+           end;
+           (* direct specification check: what was parsed is what was sent *)
+           let want = List.map (fun (nm, args) -> (tok_out (sb (Num.upper (bs nm))), List.map tok_out args)) gen in
+           let got = List.map (fun (a, b, _) -> (a, b)) impl in
+           let got_n = take (List.length want) got in
+           if got_n <> want then begin
+             incr specdiffs;
+             ignore show;
+             Printf.printf "SPECDIFF %s parsed commands differ from the commands sent (sent %d, parsed %d)\n" id
+               (List.length want) (List.length got)
+           end
+         end
+     | _ -> ())
+  done;
+  Printf.printf "RSUMMARY cases=%d commands=%d inline=%d diffs=%d specdiffs=%d\n" !cases !cmds_cmp !inl !diffs !specdiffs
+
 let () =
   match Array.to_list Sys.argv with
   | _ :: "codec" :: file :: _ -> codec_main file
   | _ :: "trace" :: file :: _ -> trace_main file
   | _ :: "judge" :: file :: _ -> judge_main file
+  | _ :: "reader" :: file :: _ -> reader_main file
   | _ -> prerr_endline "usage: mrun <mode> <file>"; exit 2
